@@ -120,7 +120,7 @@ func C03(c *Ctx) {
 		"(typestate) every store of an order whose Status is a constant is one of: Raised on a fresh order; Rejected under Status==Raised and [elapsed>=DecisionTimeLimit ∧ accepts<MinAccepts] or [rejects > len(signers)-MinAccepts]; Accepted under Status==Raised ∧ accepts>=MinAccepts ∧ ¬(rejects>threshold); Completed under Status==Accepted; any other writer must copy Status from the loaded order (or be genesis import); " +
 		"(A3) in the begin blocker no path runs the minting step after the tally step (one-block delay); inside the completion loop every iteration that stores Completed also mints and dequeues the same id, and every tally outcome dequeues from the raised queue (accept also enqueues in the accepted queue) before the next iteration. " +
 		"Decides these structural necessary conditions on every path; does not decide queue/status consistency as an inductive invariant over histories."
-	r.Rules = []string{"A1.section-writers", "A2.whitelist-action", "A2.raise-guards", "A7.raise-fields", "A2.decide-guards", "A2.decide-once-loop", "A7.decision-signer-form", "A4.decide-fields", "TS.status-transition", "A3.one-block-delay", "A3.completion-pairing", "A3.tally-pairing", "A3.queue-membership", "A3.no-stale-writeback", "A3.lost-update", "A3.stale-element-pointer", "A3.tally-complete"}
+	r.Rules = []string{"A1.section-writers", "A2.whitelist-action", "A2.raise-guards", "A7.raise-fields", "A2.decide-guards", "A2.decide-once-loop", "A7.decision-signer-form", "A4.decide-fields", "TS.status-transition", "A3.one-block-delay", "A3.completion-pairing", "A3.tally-pairing", "A3.queue-membership", "A3.no-stale-writeback", "A3.lost-update", "A3.stale-element-pointer", "A3.element-carry", "A3.tally-complete", "A7.derived-queues"}
 	r.Trusted = []string{"bank MintCoins semantics", "params are read from the store at every use (C16)"}
 	r.NotDecided = []string{"consistency of queues and statuses over all histories (inductive)", "behaviour of uint64 subtraction now-RaiseTime when block time goes backwards"}
 
@@ -796,6 +796,21 @@ func blockerOrdering(c *Ctx) {
 		}
 	}
 
+	r.Floor("mint sites of the completion loop judged for the completed mark", mintMarksCompleted(c), 1)
+	// "an accepted order is completed in the following block" also across a restart: import puts every accepted (raised)
+	// order back on its queue
+	derivedQueues(c, "enterprise")
+	statusPairing(c)
+}
+
+// statusPairing (A3.tally-pairing / A3.completion-pairing): after an order is stored with a new status, every non-aborting
+// path of that turn does what the status entails: leave the raised queue (accepted, rejected), join the accepted queue
+// (accepted), mint and leave the accepted queue (completed). An order left on a queue in another status makes the next
+// block's step panic.
+func statusPairing(c *Ctx) {
+	w, r := c.W, c.R
+	isMint := func(e ir.Effect) bool { return e.Kind == "Mint" }
+	isAccQWrite := func(e ir.Effect) bool { return e.Kind == "StoreWrite" && e.Section == secAcceptedQ }
 	// completion loop pairing
 	for _, pw := range poWriters(c) {
 		st := pw.Struct
@@ -888,6 +903,13 @@ func blockerOrdering(c *Ctx) {
 					continue
 				}
 				ok = len(ir.AfterReachesBackEdgeWithout(f, pw.First, func(in ssa.Instruction) bool { return req(nil, in) })) == 0
+			}
+			if !ok && what == "mint the order amount" {
+				// the two steps of one turn in the other order (mint, then mark and store): every path from the top of the loop to
+				// the store has passed the mint
+				if hdr := ir.EnclosingLoopHeader(f, pw.First); hdr != nil && pw.First.Parent() == f {
+					ok = !ir.ReachesFrom(f, hdr, 0, pw.First, ir.Cut{Barrier: func(in ssa.Instruction) bool { return in != pw.First && req(nil, in) }})
+				}
 			}
 			r.Require(ok, rule, fn(f)+"|"+status.Name+"|"+what, pos(c, pw.First), "after storing Status="+status.Name+" every non-aborting path of the iteration must "+what, "the next iteration (or the end of the step) is reachable without it")
 		}
@@ -1152,6 +1174,34 @@ func queueMembership(c *Ctx) {
 		}
 	}
 	r.Floor("entry points enqueuing purchase orders", n, 2)
+	// genesis import rebuilds the queues from the stored statuses: an imported order goes on a queue only where its Status
+	// has been found equal to that queue's status
+	ng := 0
+	for _, q := range []struct{ sec, status, name string }{{secRaisedQ, stRaised, "raised"}, {secAcceptedQ, stAccepted, "accepted"}} {
+		isEnq := func(e ir.Effect) bool { return e.Kind == "StoreWrite" && e.Section == q.sec }
+		direct := directSites(c, isEnq)
+		m := func(p ir.Pred) bool {
+			return cmpIs(p, "==", func(x *ir.Expr) bool { return x.Op == "field" && x.Name == "Status" }, func(y *ir.Expr) bool { return y.Op == "const" && y.Name == q.status })
+		}
+		seen := map[*ssa.Function]bool{}
+		for _, h := range w.WhoReaches([]string{"INITGEN"}, isEnq) {
+			if seen[h.Root] {
+				continue
+			}
+			seen[h.Root] = true
+			ng++
+			root := w.FlatRoot(h.Root)
+			hit := w.FlatReaches(root, nil, &ir.FlatCut{Matcher: m, Depth: 1}, func(p ir.FPos) bool { return direct(p.In) })
+			where := ""
+			if hit != nil {
+				where = pos(c, hit.In) + " via " + strings.Join(hit.Ctx.Chain(), " -> ")
+			}
+			r.Require(hit == nil, "A3.queue-membership", q.name+"|genesis|root="+fn(h.Root), w.Pos(h.Root.Pos()),
+				"genesis import puts an order on the "+q.name+" queue only where its Status was found to be "+q.status+" (the next block step panics on a queued order in any other status)",
+				"the enqueue at "+where+" is reachable without a test Status == "+q.status)
+		}
+	}
+	r.Floor("queues rebuilt by genesis import", ng, 1)
 }
 
 // tallyComplete is rule A3.tally-complete: at every block each raised order is held against the thresholds. In the
@@ -1236,4 +1286,94 @@ func tallyComplete(c *Ctx, pw poWriter, baseKey string) {
 		}
 	}
 	r.Require(bad == "", "A3.tally-complete", key, pos(c, pw.First), "every raised order is held against the thresholds at every block (an order stays raised only because its accepts are below MinAccepts and no reject condition holds)", bad)
+}
+
+// mintMarksCompleted is the converse of the completion pairing (A3.completion-pairing|mint-marks-completed): in the block
+// step that mints for accepted orders, no turn of the loop mints without also storing the order with Status=Completed —
+// before the mint on every path from the top of the loop, or after it on every path to the next turn. An order that was
+// paid but is still stored as accepted is queued again when the accepted queue is rebuilt from the stored statuses (genesis
+// import after an export / restart) and is paid a second time. Returns the number of mint sites judged.
+func mintMarksCompleted(c *Ctx) int {
+	w, r := c.W, c.R
+	n := 0
+	isMint := func(e ir.Effect) bool { return e.Kind == "Mint" }
+	var completed []poWriter
+	for _, pw := range poWriters(c) {
+		if st := fieldOfStruct(pw.Struct, "Status"); st != nil && st.Op == "const" && st.Name == stCompleted {
+			completed = append(completed, pw)
+		}
+	}
+	// an instruction that is, or leads to, a store of an order as Completed
+	isWc := func(in ssa.Instruction) bool {
+		for _, pw := range completed {
+			if pw.First == in || pw.Eff.Site == in {
+				return true
+			}
+			for _, cs := range pw.Chain {
+				if cs == in {
+					return true
+				}
+			}
+		}
+		return false
+	}
+	var judge func(f *ssa.Function, depth int)
+	seen := map[*ssa.Function]bool{}
+	judge = func(f *ssa.Function, depth int) {
+		if seen[f] || depth > 4 {
+			return
+		}
+		seen[f] = true
+		for _, m := range mutatingSites(c, f, isMint) {
+			if isWc(m) {
+				// one call both marks and mints: the two steps are siblings further down
+				if call, ok := m.(ssa.CallInstruction); ok {
+					for _, g := range w.CalleesOf(call) {
+						if len(g.Blocks) > 0 {
+							judge(g, depth+1)
+						}
+					}
+				}
+				continue
+			}
+			n++
+			notM := func(in ssa.Instruction) bool { return in != m && isWc(in) }
+			var before, after bool
+			if hdr := ir.EnclosingLoopHeader(f, m); hdr != nil {
+				before = !ir.ReachesFrom(f, hdr, 0, m, ir.Cut{Barrier: notM})
+				after = len(ir.AfterReachesBackEdgeWithout(f, m, isWc)) == 0
+			} else {
+				before = !ir.Reaches(f, m, ir.Cut{Barrier: notM})
+				after = true
+				for _, ret := range w.SuccessReturns(f) {
+					if ir.ReachesFrom(f, m.Block(), ir.InstrIndex(m)+1, ret, ir.Cut{Barrier: isWc}) {
+						after = false
+					}
+				}
+				if len(w.SuccessReturns(f)) == 0 {
+					after = false
+				}
+			}
+			r.Require(before || after, "A3.completion-pairing", fn(f)+"|mint-marks-completed", pos(c, m),
+				"a turn of the completion loop that mints also stores the order with Status=Completed (before the mint on every path, or after it on every path to the next order)",
+				"the mint is reached, and the next order taken up, without the order having been stored as completed")
+		}
+	}
+	for _, root := range w.Roots["BEGIN:enterprise"] {
+		var fs []*ssa.Function
+		for f := range w.Reachable([]*ssa.Function{root}) {
+			fs = append(fs, f)
+		}
+		sortFuncs(fs)
+		for _, f := range fs {
+			// start where the loop over the accepted queue stands
+			for _, m := range mutatingSites(c, f, isMint) {
+				if ir.EnclosingLoopHeader(f, m) != nil {
+					judge(f, 0)
+					break
+				}
+			}
+		}
+	}
+	return n
 }
